@@ -33,7 +33,7 @@ def main():
             res["existing_tests_pass_with_change"] = b"100% tests passed" in t.stdout
             res["ran"].append("cmake+ctest in scratch worktree: " + t.stdout.decode().strip().splitlines()[0] if t.stdout.strip() else "ctest: no output")
             shutil.rmtree(wt + "/_build", ignore_errors=True)
-            build = ch.get("demo_build", "")
+            build = ch.get("demo_build", "").split("(")[0]
             extra = " ".join(w for w in build.split() if w.startswith(("-pthread", "-fsanitize", "-D", "-fno-", "-O")) and not w.startswith("-O"))
             cxx = "clang++" if "-fsanitize" in extra else "g++"
             def demo_run(tree, tag):
